@@ -176,7 +176,7 @@ pub fn gen_attrs(r: &mut Rng, info: &OuterInfo, mode: Mode) -> Vec<String> {
 
 const TYPES: &[&str] = &["u8", "String", "Vec<u8>", "&'a str", "Option<T>", "(u8, T)", "[u8; 4]", "Box<dyn Fn(u8) -> T>", "std::collections::HashMap<String, T>"];
 const VISES: &[&str] = &["", "pub ", "pub(crate) ", "pub(super) ", "pub(in crate::a) "];
-const IDENTS: &[&str] = &["alpha", "beta", "gamma", "delta", "r#type", "x", "y1", "snake_name"];
+const IDENTS: &[&str] = &["alpha", "r#type", "beta", "gamma", "delta", "x", "y1", "snake_name"];
 const TIDENTS: &[&str] = &["Foo", "Bar", "Lorem", "Ipsum", "X"];
 
 struct Gen<'a> {
